@@ -6,6 +6,32 @@ import os
 HERE = os.path.dirname(os.path.dirname(os.path.abspath(__file__)))
 
 CLAIMS = {
+    "C04": dict(
+        text="Static exclusion of every source of run-to-run, process-to-process and instance-to-instance "
+             "variation: who-may-call over resolved imports (no global RNG/time/uuid/id/hash/getpid; generators "
+             "only from default_rng(seed) in _NumpyRNG), seeded-estimator check on the abstract traces (incl. "
+             "random_state passed through **dict, decided by must-assigned keys), no iteration over label sets, and "
+             "an alias analysis showing that no store in MAB.__init__ or any public entry point, in any of the "
+             "55 configurations, reaches a module-global, class-level or mutable-default object. Decides the "
+             "structural clause 'there is no shared or nondeterministic state to depend on'; found and now guards "
+             "the repaired shared tree_parameters default.",
+        note="Trusted: single-threaded numerical kernels (the property's own assumption); sklearn determinism "
+             "given random_state; externals table; CPython ast.",
+        technique="who-may-call / taint over resolved imports + ownership (GLOBAL region) alias analysis over "
+                  "abstract-interpretation traces + must-assigned dict keys",
+        ref="DESIGN.md section 3, C04"),
+    "C18": dict(
+        text="Static ownership/alias analysis: every argument of MAB.__init__ and of the public entry points is "
+             "an abstract CALLER object; aliases are followed through calls, numpy/pandas views and field stores "
+             "in all 55 configurations, and no in-place write may reach a CALLER object or a bandit field that "
+             "may alias one; MAB.arms is shown to be a fresh copy; the validator and converter isinstance tables "
+             "are compared and every converter branch is shown to return identity-on-C-contiguous / .values / "
+             "np.asarray(order='C') and to end in raise. Decides 'inputs cannot be modified' and 'every accepted "
+             "container type is converted'; equality of numerical results across container types is not decided.",
+        note="Trusted: externals table (views vs copies, mutators); pandas .values treated as a view; CPython ast.",
+        technique="ownership/alias lattice (FRESH/BANDIT/CALLER/GLOBAL) over abstract-interpretation traces; "
+                  "sibling table comparison of isinstance chains",
+        ref="DESIGN.md section 3, C18"),
     "C07": dict(
         text="Static must-kill (reset completeness) analysis: for every implementor class in every configuration, "
              "the set W of bandit-state locations that any training, warm-start or prediction path may write is "
